@@ -28,6 +28,7 @@ def correspondence(ctx, model_available=True):
     cases = fc.ifdef_cases(rng, 300 if quick else 4000)
     res = fc.compare_ifdefs("C16i", cases, model_available)
     spec_failures = list(res["spec_failures"])
+    spec_failures += fc.parse_through_oracle(rng, 120 if quick else 2000)
     disagreements = [{"what": "evaluate_ifdefs vs Model/Ifdef", **d} for d in res["disagreements"]]
     st = {"trees": 0, "files": 0, "includes": 0, "cyclic": 0, "missing": 0, "model_agree": 0}
     terms, wants, trees = [], [], []
@@ -58,6 +59,7 @@ def correspondence(ctx, model_available=True):
         "rule": "conditional compilation: random well-nested structures (depth <= 5, #ifdef/#ifndef over several symbols, "
                 "with and without #else, random spacing, arbitrary non-HERA text in discarded regions) and texts with "
                 "stray directives: real evaluate_ifdefs vs Model/Ifdef.v, and vs the C rules evaluated on the generating "
+                "tree; the top-level parser on such texts (directives indented / flush left / mixed) vs on the kept lines alone; "
                 "tree; includes: generated file trees in nested directories (forward includes, diamonds, self-includes, "
                 "cycles of any length, ./ and ../ spellings, missing files) through the real parser vs the splice "
                 "semantics, the file named in every include diagnostic, and Model/Include.v on the same trees",
